@@ -117,6 +117,16 @@ def uses_arg(x, out):
     out.append(_pick(x))
     return out
 
+def _guarded(xs, k):
+    try:
+        return xs[k]
+    except IndexError:
+        return None
+
+def uses_try(xs, k):
+    v = _guarded(xs, k)
+    return (v, len(xs))
+
 def uses_chain(x):
     return _chain(x) + _chain(x + 1)
 '''
@@ -138,6 +148,7 @@ INPUTS = {
     'uses_assign': [(11,), (7,), (1,)],
     'uses_arg': [(11, []), (1, ['z'])],
     'uses_chain': [(1,), (-3,)],
+    'uses_try': [([1, 2], 1), ([1, 2], 5), ([], 0)],
 }
 
 
@@ -191,7 +202,7 @@ def run():
                     problems.append(('inliner', f.name, args))
     except Exception as ex:
         problems.append(('inliner', 'does not compile / run', repr(ex)))
-    if inl.count < 4:
+    if inl.count < 5:
         problems.append(('coverage', f'inliner applied {inl.count} times', None))
     return problems
 
